@@ -1,6 +1,7 @@
 //! vharness <prop> gen <seed> <tier> <outfile> [corpus files...]   — generate cases, run the implementation
 //! vharness <prop> replay <file>                                   — re-run the cases of a file, print lines
 mod common;
+mod c11;
 mod c12;
 mod c13;
 mod c19;
@@ -16,6 +17,7 @@ struct Prop {
 
 fn props() -> Vec<Prop> {
   vec![
+    Prop { id: "C11", exec: c11::exec, gen: c11::gen },
     Prop { id: "C12", exec: c12::exec, gen: c12::gen },
     Prop { id: "C13", exec: c13::exec, gen: c13::gen },
     Prop { id: "C19", exec: c19::exec, gen: c19::gen },
